@@ -46,7 +46,8 @@ def r1(cx):
     listen = cx.mir.one("varlink", "server::listen")
     w = listen_worker(cx)
     cx.saw(listen); cx.saw(w)
-    aggs = [s for s in listen.stmts() if s.kind == "assign" and s.rv == "agg" and isinstance(s.agg, dict) and s.agg.get("closure", "").endswith("{closure#1}")]
+    wpath = getattr(w, "origin", w).path
+    aggs = [s for s in listen.stmts() if s.kind == "assign" and s.rv == "agg" and isinstance(s.agg, dict) and s.agg.get("closure", "") == wpath]
     if len(aggs) != 1: raise AnchorMissing("listen: worker closure aggregate")
     tys = [listen.ty(o.place.l) if o.place is not None else "const" for o in aggs[0].ops]
     good = len(tys) == 2 and any("dyn stream::Stream" in t or "Stream" in t for t in tys) and any(t.startswith("std::sync::Arc<H") or "Arc<H" in t for t in tys)
